@@ -606,8 +606,16 @@ func executeScript(
 	select {
 	case <-done:
 	case <-ctx.Done():
-		vm.Abort()
-		<-done
+		// Run resets the abort flag when it starts, an Abort called before
+		// that is lost: repeat it until Run returns.
+		for aborted := false; !aborted; {
+			vm.Abort()
+			select {
+			case <-done:
+				aborted = true
+			case <-time.After(time.Millisecond):
+			}
+		}
 		if err == nil {
 			err = ctx.Err()
 		}
